@@ -228,8 +228,13 @@ func c16Cases(c *Ctx, emit func(urlCase)) {
 		iss := gen.URLString(rng, false)
 		acc := gen.URLString(rng, true)
 		sec := ref.Base32EncodeNoPad(rng.Bytes(1 + rng.Intn(40)))
-		if rng.Intn(6) == 0 {
+		switch rng.Intn(8) {
+		case 0:
 			sec = gen.URLString(rng, true)
+		case 1: // the padded spelling ('=' is part of the secret text the caller supplied)
+			sec = ref.Base32Encode(rng.Bytes(1 + rng.Intn(40)))
+		case 2: // other accepted spellings: lower/mixed case, padding variants
+			sec = gen.Spell(rng, ref.Base32Encode(rng.Bytes(1+rng.Intn(40))), rng.Intn(16))
 		}
 		if !validUTF8(iss) || !validUTF8(acc) || !validUTF8(sec) {
 			continue
